@@ -39,4 +39,16 @@ SPECS = {
                          "not modelled (searched only): marker/pattern/image call sites of to_transform, clip rectangles of nested viewports, calculate_svg_bbox fallback, svgtypes number/length/viewBox parsers"],
         "assumptions": COMMON_ASSUME,
     },
+    "C02": {
+        "level": "proof",
+        "corr": True,
+        "search": True,
+        "translator_anchors": [],
+        "claim": "Lean 4 theorems about the layer rectangle of render_group (fit_to_rect is the intersection; every layer lies inside the 5x5-canvas box; the computation cannot panic for any box - after fix 4d447f2), about the filter size bookkeeping of apply_inner (sizes agree and no size assertion fires when layer = region; false in general, witness proved) and about pattern tiles (unbounded: witness proved; bounded when the scaled tile fits the max box). The model is tied to the code by replaying layer/filter/pattern traces recorded by cfg-guarded hooks while real documents are rendered (exact integer comparison, shift transform bit-exact on Float32). Totality and memory of everything outside the model (tiny-skia, blur, decoders) are searched in an isolated worker with a capped allocator; the remaining genuine defects are listed as known findings.",
+        "design_ref": "§6 C02",
+        "rule": "correspondence: fit_to_rect on PRNG/boundary IntRects; every layer_in/layer_out, filter_region/prim/res and pattern_in/out trace line of generated documents (all element kinds, filters of 1-4 primitives) and corpus files rendered at canvases 1x1..512x512 under identity/translate/scale/rotate/skew/near-singular transforms. search: worker renders generated documents; oracle: no panic/abort/hang, largest single allocation <= 25 canvases + 4 MiB. non-trivial = render returned normally.",
+        "trusted_base": ["modelled: render.rs render_group (layer rectangle, shift_ts), geom.rs fit_to_rect/to_int_rect, lib.rs max_bbox, filter/mod.rs apply_inner size bookkeeping and size assertions of composite/displacement_map/lighting, path.rs render_pattern_pixmap tile size",
+                         "not modelled (searched only): tiny-skia rasteriser and pipelines, blur/turbulence/lighting numerics, image decoders, clip/mask buffers (they copy the layer size)"],
+        "assumptions": COMMON_ASSUME + ["a rendering that finishes on a 32x32 canvas is counted as bounded-time (cost is polynomial in the layer area); only a run that does not finish there is a hang"],
+    },
 }
